@@ -54,6 +54,12 @@ def gen_case(r, idx, tmpdir):
                 bi, p = r.choice(cand)
                 s["act"] += ["sim_opt mute 56"] + ["hl point pt%d a%d" % (p["id"], p["aspects"][0][0])] * 7 + ["sim_opt mute -1"]
                 s["nocorr"] = True; s["capprobe"] = False      # the probe messages would queue up behind the deferred ones
+            elif cand and s["flush"] == 0 and r.chance(1, 3):
+                # a command whose message is still in the send buffer when the session is stopped (no flush, no auto-flush): it goes
+                # out with the first flush of the shutdown sequence and must not leak into the next session
+                bi, p = r.choice(cand)
+                s["pending"] = (bi, p["num"], p["aspects"][0][1], "hlnf point pt%d a%d" % (p["id"], p["aspects"][0][0]))
+                s["capprobe"] = False
         case["sessions"].append(s)
     return case
 
@@ -66,6 +72,7 @@ def script_of(case):
         if s["again"] and s["runs"]: L += ["mark again%d" % k, "simstart %d %s %d" % (1 if s["debug"] else 0, case["dir"], s["flush"])]
         if s["act"]: L += ["mark act%d" % k] + s["act"]
         if s["capprobe"]: L += ["mark cap%d" % k, "capprobe"]
+        if s.get("pending"): L += ["mark pend%d" % k, s["pending"][3]]
         L += ["mark stop%d" % k, "stop", "mark after%d" % k, "globals", "thstate"]
         if s["stoptwice"]: L += ["mark stopagain%d" % k, "stop"]
     L += ["mark leak", "leakcheck"]
@@ -76,6 +83,7 @@ def canon(lines, case):
     compared; the activity section is excluded where messages are deliberately left deferred (C03's subject)"""
     out = []; sec = None; skip = False; joins = []
     nocorr = {"act%d" % k for k, s in enumerate(case["sessions"]) if s["nocorr"]}
+    nocorr |= {x % k for k, s in enumerate(case["sessions"]) if s.get("pending") for x in ("pend%d", "stop%d")}      # the model has no send buffer
     def flushj():
         out.extend(sorted(joins)); joins.clear()
     for l in lines:
@@ -113,6 +121,12 @@ def judge(case, lines):
                 fmt = {28: 2, 126: 3}.get(t["steps"], 0)
                 exp += [[ah(bi), "64", "%02x%02x%02x000000000000" % (t["addrl"], t["addrh"], fmt)] for bi in on]
             exp += [[ah(bi), "62", "00"] for bi in on]
+            if s.get("pending"):
+                pbi, pnum, pval, _ = s["pending"]
+                pm = [ah(pbi), "38", "%02x%02x" % (pnum, pval)]
+                exp = [pm] + exp                       # what was buffered goes out with the first flush of the shutdown sequence
+                if k + 1 < len(case["sessions"]) and any(l.split()[1:] == pm for l in sec.get("s%d" % (k + 1), []) if l.startswith("t ")) and tl[:1] != [pm]:
+                    bad.append(("stale-send-buffer", "session %d: a message buffered in session %d (%r) was transmitted at the start of the next session" % (k + 1, k, pm)))
             if tl != exp: bad.append(("shutdown-traffic", "session %d: stop traffic %r expected %r" % (k, tl[:8], exp[:8])))
             idx_t = [i for i, l in enumerate(stop_lines) if l.startswith("t ")]; idx_j = [i for i, l in enumerate(stop_lines) if l.startswith("th join")]
             if idx_t and idx_j and max(idx_t) > min(idx_j): bad.append(("shutdown-traffic", "session %d: a thread is joined before the last shutdown message" % k))
